@@ -299,6 +299,8 @@ def run(tier="quick", seed=1, work=None, replay=None, focus="C01", ncases=None):
             src_root, dst_root, out_root = (os.path.join(case_dir, x) for x in ("src", "dst", "out"))
             if caps.get("hardlink") and focus in ("C03", "C01", "C19", "C13") and ci % 12 == 5:
                 broken_link_history(rep, contents, ci, seed, work, rng)
+            if focus in ("C03", "C01", "C02") and ci % 12 == 7:
+                moved_dir_history(rep, contents, ci, seed, work, rng)
             if caps.get("hardlink") and focus == "C05" and ci % 20 == 3:
                 link_group_failure_twin(rep, contents, ci, seed, work, rng)
             if focus == "C07" and ci % 2 == 0:
@@ -603,6 +605,41 @@ def broken_link_history(rep, contents, ci, seed, work, rng):
         summ = next((e for e in ev2 if e.get("type") == "summary"), None)
         if summ and (summ["files_updated"] or summ["files_created"]):
             rep.oracle_fail("C03/write-through-unshared-dst-hardlink", f"re-run after the broken-link update still updates {summ['files_updated']} file(s): the two names flip on every run", desc)
+    shutil.rmtree(case_dir, ignore_errors=True)
+
+def moved_dir_history(rep, contents, ci, seed, work, rng):
+    """O-only history (seeded change C03c; repo fix 862af11): a destination directory was moved elsewhere and replaced by a symlink
+    to its new place (so everything below it is reachable THROUGH the link with equal size and mtime), the source still has the
+    directory.  Run 1 must replace the link by a real directory holding every source entry (never touching the moved copy);
+    run 2 must be a no-op."""
+    case_dir = os.path.join(work, f"mv{ci}")
+    src_root, dst_root, out_root = (os.path.join(case_dir, x) for x in ("src", "dst", "out"))
+    big = rng.bytes(rng.pick([5000, 9000, 20000])); small = rng.bytes(rng.range(1, 300))
+    tree = {"a.txt": F(b"top"), "d": D(), "d/big.bin": F(big), "d/small.txt": F(small), "d/sub": D(), "d/sub/deep.dat": F(rng.bytes(6000))}
+    materialize(src_root, tree)
+    materialize(dst_root, {"a.txt": F(b"top")})
+    materialize(os.path.join(out_root, "d_moved"), {k[2:]: v for k, v in tree.items() if k.startswith("d/")})
+    os.symlink(os.path.join(out_root, "d_moved"), os.path.join(dst_root, "d"))
+    flags = ["-j", str(rng.pick([1, 4]))] + rng.pick([[], [], ["--checksum"], ["--delete", "--force-delete"]])
+    desc = {"case": ci, "seed": seed, "flags": flags, "scenario": "destination directory d moved to out/d_moved and replaced by a symlink; source still has d/"}
+    pre_out = snapshot(out_root, contents); s = snapshot(src_root, contents)
+    rc, out, err = run_sy([src_root, dst_root, "--json"] + flags, case_dir)
+    post1 = snapshot(dst_root, contents)
+    rep.tag("history.moved-dir-behind-link"); rep.case(("moved-dir", len(big), tuple(flags)), True)
+    if tree_fingerprint(snapshot(out_root, contents)) != tree_fingerprint(pre_out):
+        rep.oracle_fail("C02/outside-modified", "the moved copy behind the destination symlink was modified", desc)
+    if rc == 0:
+        for rel, n in s.items():
+            d = post1.get(rel)
+            if d is None or d["k"] != n["k"]: rep.oracle_fail("C01/selected-file-missing" if n["k"] == "f" else "C01/selected-dir-missing", f"exit 0 but {rel} is missing / of the wrong kind after the link was replaced", desc); break
+            if n["k"] == "f" and d["cid"] != n["cid"]: rep.oracle_fail("C01/content-differs", f"exit 0 but {rel} differs from its source", desc); break
+        rc2, out2, err2 = run_sy([src_root, dst_root, "--json"] + flags, case_dir)
+        ev2, _ = parse_json_lines(out2)
+        summ = next((e for e in ev2 if e.get("type") == "summary"), None)
+        if summ and (summ["files_updated"] or summ["files_created"] or summ["files_deleted"] or summ["bytes_transferred"]):
+            rep.oracle_fail("C03/rerun-not-a-noop", f"second run after replacing the link: created {summ['files_created']} updated {summ['files_updated']} deleted {summ['files_deleted']}", desc)
+        if tree_fingerprint(snapshot(dst_root, contents)) != tree_fingerprint(post1):
+            rep.oracle_fail("C03/rerun-changed-destination", "the second run changed the destination", desc)
     shutil.rmtree(case_dir, ignore_errors=True)
 
 def home_listing(case_dir):
